@@ -435,6 +435,10 @@ def splice_fn(text, fs: FnSpec):
     sh = FnShape(text)
     m = sh.m
     eds = []
+    # soft anchors: a clause whose anchor has vanished is recorded as lost and skipped; the function is
+    # still verified with the remaining clauses (the driver decides: failed tagged obligation => VIOLATION,
+    # otherwise a lost tagged clause => undecided)
+    sh.lost = []
     by_kind = {}
     for c in fs.clauses:
         by_kind.setdefault(c.kind, []).append(c)
@@ -493,7 +497,8 @@ def splice_fn(text, fs: FnSpec):
     for c in by_kind.get("tail", []):
         j = skip_ws_back(m, sh.body_close)
         if m[j] in ";{":
-            raise AnchorLost("%s: body has no tail expression" % fs.path)
+            sh.lost.append((c, "body has no tail expression"))
+            continue
         p, _ = _stmt_start(m, j, sh.body_open + 1)
         ind = _indent_at(text, p)
         eds.append(Edit(p, p, "%s\n%s" % (c.text, ind), "S", c))
@@ -502,7 +507,8 @@ def splice_fn(text, fs: FnSpec):
     def loop_n(c):
         n = c.args["n"]
         if n < 1 or n > len(sh.loops):
-            raise AnchorLost("%s: loop %d not found (%d loops)" % (fs.path, n, len(sh.loops)))
+            sh.lost.append((c, "loop %d not found (%d loops)" % (n, len(sh.loops))))
+            return None
         return sh.loops[n - 1]
 
     loop_groups = {}
@@ -512,7 +518,10 @@ def splice_fn(text, fs: FnSpec):
     for n, g in sorted(loop_groups.items()):
         lp = sh.loops[n - 1] if 1 <= n <= len(sh.loops) else None
         if lp is None:
-            raise AnchorLost("%s: loop %d not found (%d loops)" % (fs.path, n, len(sh.loops)))
+            for cs_ in g.values():
+                for c_ in cs_:
+                    sh.lost.append((c_, "loop %d not found (%d loops)" % (n, len(sh.loops))))
+            continue
         ind = _indent_at(text, lp["start"])
         pos = lp["body_open"]
         first = True
@@ -527,22 +536,31 @@ def splice_fn(text, fs: FnSpec):
         eds.append(Edit(pos, pos, ind, "S", None))
     for c in by_kind.get("loop_bind", []):
         lp = loop_n(c)
+        if lp is None:
+            continue
         if lp["kw"] != "for":
-            raise AnchorLost("%s: loop %d is not a `for` loop (bind)" % (fs.path, c.args["n"]))
+            sh.lost.append((c, "loop %d is not a `for` loop (bind)" % c.args["n"]))
+            continue
         inm = re.search(r"\sin\s+", m[lp["start"]:lp["body_open"]])
         pos = lp["start"] + inm.end()
         eds.append(Edit(pos, pos, c.text.strip() + ": ", "S", c))
     for c in by_kind.get("loop_attr", []):
         lp = loop_n(c)
+        if lp is None:
+            continue
         ind = _indent_at(text, lp["start"])
         eds.append(Edit(lp["start"], lp["start"], c.text + "\n" + ind, "S", c))
     for c in by_kind.get("loopstart", []):
         lp = loop_n(c)
+        if lp is None:
+            continue
         ind = _indent_at(text, lp["start"])
         p = lp["body_open"] + 1
         eds.append(Edit(p, p, "\n%s    %s" % (ind, c.text), "S", c))
     for c in by_kind.get("loopend", []):
         lp = loop_n(c)
+        if lp is None:
+            continue
         ind = _indent_at(text, lp["start"])
         p = lp["body_close"]
         q = p
@@ -564,15 +582,18 @@ def splice_fn(text, fs: FnSpec):
                     occ.append(i)
                 s = i + 1
             if not occ:
-                raise AnchorLost("%s: anchor `%s` not found" % (fs.path, tok))
+                sh.lost.append((c, "anchor `%s` not found" % tok))
+                continue
             if k is None and len(occ) > 1:
-                raise AnchorLost("%s: anchor `%s` is ambiguous (%d sites)" % (fs.path, tok, len(occ)))
+                sh.lost.append((c, "anchor `%s` is ambiguous (%d sites)" % (tok, len(occ))))
+                continue
             if k == 0:
                 sites = occ
             else:
                 i = occ[(k or 1) - 1] if (k or 1) <= len(occ) else None
                 if i is None:
-                    raise AnchorLost("%s: anchor `%s` #%d not found" % (fs.path, tok, k))
+                    sh.lost.append((c, "anchor `%s` #%d not found" % (tok, k)))
+                    continue
                 sites = [i]
             for i in sites:
               if kind == "before":
@@ -580,7 +601,11 @@ def splice_fn(text, fs: FnSpec):
                 ind = _indent_at(text, p)
                 eds.append(Edit(p, p, "%s\n%s" % (c.text, ind), "S", c))
               else:
-                p = _stmt_end(m, i, sh.body_close)
+                try:
+                    p = _stmt_end(m, i, sh.body_close)
+                except AnchorLost as e_:
+                    sh.lost.append((c, str(e_)))
+                    continue
                 ss, _ = _stmt_start(m, i, sh.body_open + 1)
                 ind = _indent_at(text, ss)
                 eds.append(Edit(p, p, "\n%s%s" % (ind, c.text), "S", c))
